@@ -101,6 +101,10 @@ Definition spec_table a nx ny nz : list (list Z) :=
   map (fun i => map (fun j => if i =? j then - nbr_count a nx ny nz i
                               else if nbr a nx ny nz i j then 1 else 0) r) r.
 
+(* the neighbours of vial i as list positions (used by the Snowflake step model) *)
+Definition nbr_list a nx ny nz (i : Z) : list nat :=
+  map Z.to_nat (filter (fun j => nbr a nx ny nz i j) (zrange (Z.to_nat (nvials nx ny nz)))).
+
 (* ---- helpers for the correspondence check --------------------------------------- *)
 Definition row_nonzeros a nx ny nz (i : Z) : list (Z * Z) :=
   filter (fun p => negb (snd p =? 0))
